@@ -95,6 +95,18 @@ def run(ctx):
         if H.shape != (n, n):
             ctx.violation('Hessian shape is not (n, n)', got=list(H.shape), **rep)
             continue
+        ctx.keep('Hessian', H, **rep)
+        # the value does not depend on whether the record is requested
+        try:
+            with warnings.catch_warnings():
+                warnings.simplefilter('ignore')
+                H_plain = nd.Hessian(f, method=meth, **kw)(x)
+        except Exception as ex:
+            ctx.violation('Hessian (full_output=False) raised %r' % ex, **rep)
+            continue
+        if np.shape(H_plain) != (n, n) or not np.all((H_plain == H) | ((H_plain != H_plain) & (H != H))):
+            ctx.violation('Hessian returns a different value without full_output', with_record=str(H.tolist()), without=str(np.asarray(H_plain).tolist()), **rep)
+            continue
         if not np.array_equal(H, H.T):
             ctx.violation('Hessian is not exactly symmetric', H=str(H.tolist()), **rep)
             continue
@@ -109,7 +121,7 @@ def run(ctx):
             ctx.violation('Hessian entry differs from the exact second derivative', got=str(H.tolist()), exact=str(np.asarray(exact).tolist()), **rep)
             continue
         # Hessdiag
-        if meth != 'central2' and kind != 'complexvalued':
+        if kind != 'complexvalued':
             order = rng.choice([2, 4, 6])
             try:
                 with warnings.catch_warnings():
@@ -120,6 +132,13 @@ def run(ctx):
                 continue
             if np.shape(hd) != (n,):
                 ctx.violation('Hessdiag shape is not (n,)', got=list(np.shape(hd)), **rep)
+                continue
+            with warnings.catch_warnings():
+                warnings.simplefilter('ignore')
+                hd_plain = nd.Hessdiag(f, method=meth, order=order)(x)
+            if np.shape(hd_plain) != (n,) or not np.all((hd_plain == hd) | ((hd_plain != hd_plain) & (hd != hd))):
+                ctx.violation('Hessdiag returns a different value without full_output', order=order, with_record=hd.tolist(),
+                              without=np.asarray(hd_plain).tolist(), **rep)
                 continue
             dexact = np.real(np.diag(exact))
             tol = 1000 * (np.abs(hi.error_estimate) + np.diag(est)) + {'forward': 1e-3, 'backward': 1e-3}.get(meth, 1e-5) * scale
